@@ -185,8 +185,8 @@ readable(int fd)
 static void
 set_buf(nng_socket s, int n)
 {
-	// ENOTSUP (direction without a buffer) is ignored; protocols whose
-	// minimum is 1 get 1 instead of 0
+	// errors (option absent for this direction) are ignored; protocols
+	// whose minimum is 1 get 1 instead of 0
 	if (nng_socket_set_int(s, NNG_OPT_RECVBUF, n) == NNG_EINVAL && n == 0)
 		(void) nng_socket_set_int(s, NNG_OPT_RECVBUF, 1);
 	if (nng_socket_set_int(s, NNG_OPT_SENDBUF, n) == NNG_EINVAL && n == 0)
@@ -257,6 +257,8 @@ run(void *arg)
 			uint8_t     body[2] = { (uint8_t) (k ? 'Y' : 'X'),
 				    (uint8_t) seq };
 			nng_msg    *m;
+			if (seq >= 16)
+				vs_fail("harness:tags", "more than 16 sends per side");
 			VH_OK(nng_msg_alloc(&m, 0));
 			VH_OK(nng_msg_append(m, body, 2));
 			switch (v->hdr[k]) {
